@@ -15,6 +15,10 @@ found_by={"C02-Zeta-tail-precision":"C02 law test (Zeta<f64> s<=1.2, Zeta<f32> s
 "C04-Hypergeometric-u64-overflow":"C04 special u64 lattice, checked profile (and a hung release run)",
 "C05-Binomial-u64max-hang":"C05 extreme cells + adversarial words, monitor thread",
 "C10-tree-float-zero-residue-panic":"C10 zeroing histories on float trees",
+"C02-Zipf-s-near-1":"C02 law test on the near-switch grid cells s = 1 +- few ulp / 1e-3 (first recorded as a known finding, then repaired)",
+"C03-Zipf-s-near-1":"C03 random-stream phase on the same cells (values outside [1, n])",
+"C03-Hypergeometric-huge-N-panic":"a round-3 sub-agent (writing a C05 change) — NOT by the checks: their extreme cells had one tuple above 2^50; the cells 2^40..2^62 x 5 shapes were added afterwards and re-find it on the pre-fix source",
+"C05-Zipf-inf-n-s-near-1":"C05 extreme cells (Zipf n x s cross product, added after seeded change R3-C05-1 was missed): mean-word bound and per-call budget",
 "C02-Binomial-BINV-tiny-p":"C02 random cell under VERIF_SEED=11 / xoshiro (multi-seed robustness run)"}
 txt="Fixed (one `fix:` commit each):\n\n| property | commit | what failed | found by |\n|---|---|---|---|\n"
 for f in kf:
